@@ -56,7 +56,7 @@ class G:
     def term(self, pos: str, depth: int = 0):
         r = self.r
         x = r.random()
-        if self.star and depth < 3 and x < (0.10 if depth == 0 else 0.15):
+        if self.star and pos != "g" and depth < 3 and x < (0.10 if depth == 0 else 0.15):
             return self.quoted(depth)
         if pos == "p":
             if self.generalized and x < 0.25:
